@@ -36,6 +36,39 @@ OPS = {'Request': 1, 'Response': 2, 'Rst': 3, 'Shutdown': 4, 'Rw': 5, 'CreditUpd
 OP_OF = {'connect': 1, 'accept': 2, 'send': 5, 'credit_update': 6, 'shutdown': 4, 'shutdown_with_hints': 4, 'force_close': 3}
 M32 = 2**32
 
+def v15_forwarded_is_read(F, R):
+    """fwd_cnt counts bytes handed to the application: the amount by which the forwarded counter is advanced is the number of bytes
+    the receive buffer's drain actually returned - not what was buffered, nor the caller's buffer length."""
+    info = [n for n in F.adts if n.endswith('::ConnectionInfo') and n.startswith('device::socket::')]
+    rb = [n for n in F.adts if n.endswith('RingBuffer') and n.startswith('device::socket::')]
+    if not info or not rb:
+        return
+    fwd = set()
+    for b in F.bodies.values():
+        if b.get('impl_adt') != info[0] or not F.handwritten(b) or b['arg_count'] != 2 or b['locals'][2]['ty'] != 'usize':
+            continue
+        sg0 = supergraph(F, b['id'], tag='flat', max_depth=0)
+        for nd in sg0.nodes:
+            if nd.kind == 'assign' and nd.d['place']['p'] and isinstance(nd.d['place']['p'][-1], dict) and 'fwd' in str(nd.d['place']['p'][-1].get('n')):
+                fwd.add(b['id'])
+    drains = set(b['id'] for b in F.bodies.values() if b.get('impl_adt') == rb[0] and F.handwritten(b) and '&mut [u8]' in ' '.join(l_['ty'] for l_ in b['locals'][1:b['arg_count'] + 1])
+                 and b['locals'][0]['ty'] == 'usize')
+    n = 0
+    for b in sorted(F.bodies.values(), key=lambda x: x['id']):
+        if not F.handwritten(b) or 'device::socket' not in b['id'] or b['id'] in fwd:
+            continue
+        sg = supergraph(F, b['id'], tag='flat', max_depth=0)
+        S = sg.sym
+        for c in sg.calls(lambda d: d.get('fn') in fwd):
+            n += 1
+            amt = S.operand(c.id, c.d['args'][1])
+            ok = any(x[0] == 'call' and x[2] in drains for x in deep_subterms(S, amt))
+            R.check(ok, 'V15', '%s:forwarded-is-read' % b['id'], site(sg, c), 'the forwarded counter advances by what drain returned',
+                    '%s advances the forwarded-bytes counter by %s, which is not the number of bytes the receive buffer handed out: after a partial read the '
+                    'advertised free space is overstated and a peer honouring it overruns the buffer' % (b['name'], fmt(amt)[:60]))
+    R.count('forward_sites', n)
+
+
 def v13_accounting_on_table_entry(F, R):
     """The driver-level operations update a connection's accounting (bytes sent, "credit request pending") through the
     `&mut ConnectionInfo` they are given: the connection manager hands them the `info` of the connection in its table - not a
@@ -88,6 +121,7 @@ def run(F, R):
     from .C03 import pop_rule
     pop_rule(F, R, 'V12')
     v13_accounting_on_table_entry(F, R)
+    v15_forwarded_is_read(F, R)
     # V14: a credit request is answered and a credit update refreshes the peer's credit only if each is decoded as what it is:
     # operation codes decode to the protocol's event kinds (C18.X1)
     from .C18 import x10_event_decoding
